@@ -1904,6 +1904,14 @@ fn compare_greater_byte_array_decimals(a: &[u8], b: &[u8]) -> bool {
             let a_longer: bool = a_length > b_length;
             return if negative_values { !a_longer } else { a_longer };
         }
+
+        // The leading bytes of the longer value are pure sign extension, so the
+        // values compare as its remaining bytes against the whole shorter value.
+        return if a_length > b_length {
+            a[a_length - b_length..] > *b
+        } else {
+            *a > b[b_length - a_length..]
+        };
     }
 
     (a[1..]) > (b[1..])
